@@ -15,7 +15,7 @@ import (
 func init() { register("C14", C14) }
 
 func c14Corpus(c *Ctx) []*corpus.Spec {
-	want := []string{"list_null", "auto_tokens", "rr_first"}
+	want := []string{"list_null", "auto_tokens", "rr_first", "case_names"}
 	if c.Thorough() {
 		want = append(want, "lvalue", "opt_mid", "dangling_else", "unit_chain", "etf", "expr_nonassoc", "sep_ab")
 	}
